@@ -1,5 +1,6 @@
 import MpVerif.C02.LemmasTop
 import MpVerif.C02.LemmasTotal
+import MpVerif.C02.LemmasSafe
 /-!
 # C02 — property theorems
 
@@ -195,29 +196,87 @@ theorem C02_total (data : ByteArray) (flags : Nat) (objsel : Option Nat) :
     · exact finish_nofuel (readBody_nofuel _ _)
     · simp
 
-/-! ### undefined behaviour
+/-! ### memory safety of the cursor at model level
 
-After the fixes 1efd01c, e1c4ee8, e61f0aa, 984b1d0 (found by this check: `(long)tmp` on an out-of-range
-header option, `num_compl_conds += ..`, `ConHandler::num_items()`, `num_items + 1`) the reader contains no
-conversion or signed-arithmetic UB any more: the model has a located read error (`integer overflow`) or
-an early `break` at these points, and the corresponding inputs are regression cases of the correspondence
-(`FIXED` in checks/c02_gen.py).
+Buffer contract (`NLStringRef`, `NLFileReader`): `data[0 .. len)` followed by a NUL at offset `len`
+(`end_`); `Inp.rd p = 0` for `p ≥ len` (`Inp.rd_zero`).  The model marks every dereference of the cursor
+(`ReadChar`, `SkipSpace`, `ReadIntWithoutSign`, `ReadTillEndOfLine`) with a guard that yields `ub overrun`
+if the cursor is past that NUL.  `LemmasIn` shows that every text primitive advances only past bytes it
+has seen to be non-NUL (including the model of `strtod`) and every binary primitive only after the length
+check `end_ - ptr_ ≥ n`; `LemmasSafe` shows that every continuation of `ReadChar` either knows the byte
+was not NUL or stops.  Since `overrun` is the only `ub` left after the fixes 1efd01c, e1c4ee8, e61f0aa,
+984b1d0 (conversion / signed-arithmetic UB found by this check), this is the full-strength statement. -/
 
-The only undefined behaviour left in the model is the explicit guard `ub overrun` (dereferencing the
-cursor past the terminating NUL).  Full-strength statement, NOT proved (it needs a fourth pass over the
-parser with the invariant "a non-NUL `ReadChar` result implies the cursor is inside the buffer"); it is
-observed only (ASan on exact-size heap copies, `ub:overrun` never predicted by the model on any run):
+theorem readBody_safe (cx : Env) (s : PState) (hs : s.r.pos ≤ cx.inp.len) :
+    PSafe (readBody cx) s (fun _ _ => True) := by
+  have ps := primSafe cx.inp cx.k
+  have fin : ∀ (rb : Bool) (br : Option RState) (s : PState), s.r.pos ≤ cx.inp.len →
+      (∀ r, br = some r → r.pos ≤ cx.inp.len) →
+      PSafe (do readLoop cx (loopFuel cx.inp) rb br; emit .endInput : P Unit) s (fun _ _ => True) := by
+    intro rb br s hs hbr
+    apply psafe_bind
+    apply psafe_mono (readLoop_safe ps _ rb br s hs hbr)
+    intro _ s1 _
+    trivial
+  unfold readBody
+  split
+  · have h1 := readLoop_safe (cx := { cx with objsel := none }) ps (loopFuel cx.inp) true none ⟨s.r, []⟩ hs
+      (fun _ h => by cases h)
+    have hfin := fun s1 : PState => fin false (some s1.r) ⟨s.r, s1.evs.filter isVarBounds ++ s.evs⟩ hs
+    unfold PSafe at h1 hfin ⊢
+    simp only [] at h1 hfin ⊢
+    generalize readLoop { inp := cx.inp, k := cx.k, h := cx.h, flags := cx.flags, objsel := none }
+      (loopFuel cx.inp) true none ⟨s.r, []⟩ = res at h1 ⊢
+    cases res with
+    | ok a s1 =>
+      rename_i hfl
+      have hodd : cx.flags % 2 = 1 := by simpa using hfl
+      exact hfin s1 (fun r hr => by cases hr; exact h1 trivial hodd)
+    | err e evs1 => trivial
+    | ub u evs1 => exact h1
+    | fuel => trivial
+  · exact fin true none s hs (fun _ h => by cases h)
 
-    theorem C02_no_ub (data flags objsel) : ∀ u, (readNL data flags objsel).outcome ≠ .ub u
+theorem finish_noub {h : Header} (p : P Unit) (s : PState) {Q : Unit → PState → Prop} (hn : PSafe p s Q) :
+    ∀ u, (finish h (p s)).outcome ≠ .ub u := by
+  intro u
+  unfold PSafe at hn
+  cases hres : p s <;> rw [hres] at hn <;> simp [finish] at hn ⊢
 
-What is proved about such an outcome: -/
+/-- **C02 (no undefined behaviour at model level).**  For every byte string, flag value and objective
+    filter the reader never dereferences its cursor past the terminating NUL — in the header, in text and
+    in (native or byte-swapped) binary bodies, in both passes of READ_BOUNDS_FIRST — and no other
+    undefined behaviour is left in the model. -/
+theorem C02_no_ub (data : ByteArray) (flags : Nat) (objsel : Option Nat) :
+    ∀ u, (readNL data flags objsel).outcome ≠ .ub u := by
+  intro u
+  unfold readNL
+  simp only []
+  have hh := readHeader_safe ⟨data⟩
+  split
+  · simp
+  · rename_i u' hhd
+    exact absurd hhd (hh.noub _ (Nat.zero_le _) u')
+  · rename_i h r hhd
+    have hr : r.pos ≤ (⟨data⟩ : Inp).len := hh.ok _ (Nat.zero_le _) h r hhd
+    split
+    · exact finish_noub _ _ (readBody_safe ⟨⟨data⟩, .text, h, flags, objsel⟩ ⟨r, []⟩ hr) u
+    split
+    · exact finish_noub _ _ (readBody_safe ⟨⟨data⟩, .bin false, h, flags, objsel⟩ ⟨r, []⟩ hr) u
+    split
+    · exact finish_noub _ _ (readBody_safe ⟨⟨data⟩, .bin true, h, flags, objsel⟩ ⟨r, []⟩ hr) u
+    · simp
 
-/-- if the model ever reported `ub`, everything delivered up to that point is still consistent with the
-    header, and the outcome is not an artefact of the recursion fuel -/
-theorem C02_no_ub_partial (data : ByteArray) (flags : Nat) (objsel : Option Nat) (u : UB)
-    (_hu : (readNL data flags objsel).outcome = .ub u) :
-    Consistent objsel.isNone (readNL data flags objsel) = true ∧ (readNL data flags objsel).outcome ≠ .fuel :=
-  ⟨C02_consistent data flags objsel, C02_total data flags objsel⟩
+/-- every call ends in exactly one of: normal completion, or a located read error -/
+theorem C02_completes_or_read_error (data : ByteArray) (flags : Nat) (objsel : Option Nat) :
+    (readNL data flags objsel).outcome = .ok ∨ ∃ e, (readNL data flags objsel).outcome = .err e := by
+  have h1 := C02_total data flags objsel
+  have h2 := C02_no_ub data flags objsel
+  cases ho : (readNL data flags objsel).outcome with
+  | ok => exact Or.inl rfl
+  | err e => exact Or.inr ⟨e, rfl⟩
+  | ub u => exact absurd ho (h2 u)
+  | fuel => exact absurd ho h1
 
 def bytesOf (l : List Nat) : ByteArray := ⟨(l.map Nat.toUInt8).toArray⟩
 
